@@ -577,3 +577,52 @@ func init() {
 			return obs
 		}})
 }
+
+// VALUE.no-pointer-identity — C01 / C10: lisp values are compared by what they
+// ARE (type, name, number), never by which allocation they live in.  `false`
+// is a symbol: the evaluator usually hands out one shared allocation of it,
+// but `'false`, an element of a quoted list, or a value copied by a builtin is
+// a different allocation of the same value.  A truth test (or any other
+// decision) written as a pointer comparison with the shared allocation is
+// right for every `false` the tests produce and wrong for the others.
+func init() {
+	register(&Rule{ID: "VALUE.no-pointer-identity", Floor: 1,
+		Doc: "in the interpreter kernel an equality comparison between two non-nil *LVal operands (pointer identity) occurs only in the audited bookkeeping functions — isSingleton (which allocation may be sealed/mutated), the cycle guards (has this node been entered) and the environment/aliasing checks listed with a reason — never in a function that decides a value's truth, equality or type",
+		Run: func(c *Ctx) []Obligation {
+			const rid = "VALUE.no-pointer-identity"
+			permitted := map[string]string{
+				"lisp.isSingleton": "asks which allocation this is — the question is about storage (may it be written, sealed), not about the value",
+				"lisp/lisplib/libschema.isValidator": "an unforgeable credential: the marker cell of a validator must be the package-private marker allocation itself, so that no value a program can build passes for a constraint",
+			}
+			var obs []Obligation
+			for _, u := range c.Funcs(isKernel) {
+				if u.Decl == nil || u.Decl.Body == nil {
+					continue
+				}
+				info := u.Pkg.TypesInfo
+				ord := &ordinal{}
+				ast.Inspect(u.Decl.Body, func(n ast.Node) bool {
+					be, ok := n.(*ast.BinaryExpr)
+					if !ok || be.Op != token.EQL && be.Op != token.NEQ {
+						return true
+					}
+					tx, okx := info.Types[be.X]
+					ty, oky := info.Types[be.Y]
+					if !okx || !oky || tx.IsNil() || ty.IsNil() {
+						return true
+					}
+					if !isLValPtr(c, tx.Type) || !isLValPtr(c, ty.Type) {
+						return true
+					}
+					construct := ord.next("pointer comparison " + types.ExprString(be))
+					if why, ok := permitted[u.Name()]; ok {
+						obs = append(obs, mkOb(c, rid, u, construct, be, Proved, "permitted: "+why, false))
+					} else {
+						obs = append(obs, mkOb(c, rid, u, construct, be, Undecided, "two lisp values are compared by allocation: equal values that live in different allocations (a quoted `false`, a copied element) are told apart, so the decision taken here differs between values the language considers the same", true))
+					}
+					return true
+				})
+			}
+			return obs
+		}})
+}
